@@ -8,6 +8,7 @@ use crate::{common::FixedPoint, core::SourceSpan};
 const SECOND_PER_DAY: u64 = Second::per(Day) as u64;
 const SECOND_PER_HOUR: u64 = Second::per(Hour) as u64;
 const SECOND_PER_MINUTE: u64 = Second::per(Minute) as u64;
+const FEMPTOS_PER_NANOSECOND: u128 = 1_000_000;
 
 // See section 2.2.2
 #[derive(Debug, PartialEq, Clone)]
@@ -29,9 +30,10 @@ impl DurationLiteral {
         // The whole part is entirely seconds
         let whole_seconds = Duration::days(days.whole as i64);
 
-        // The fraction has both seconds and one part femptoseconds
-        let fraction_seconds = Duration::microseconds(
-            (days.femptos * SECOND_PER_DAY / FixedPoint::FRACTIONAL_UNITS) as i64,
+        // The fraction is in units of 10^-15 of the unit; convert to nanoseconds. The
+        // product does not fit into 64 bits so use a wider type for the intermediate value.
+        let fraction_seconds = Duration::nanoseconds(
+            (days.femptos as u128 * SECOND_PER_DAY as u128 / FEMPTOS_PER_NANOSECOND) as i64,
         );
 
         Self {
@@ -53,9 +55,10 @@ impl DurationLiteral {
         // The whole part is entirely seconds
         let whole_seconds = Duration::hours(hours.whole as i64);
 
-        // The fraction has both seconds and one part femptoseconds
-        let fraction_seconds = Duration::microseconds(
-            (hours.femptos * SECOND_PER_HOUR / FixedPoint::FRACTIONAL_UNITS) as i64,
+        // The fraction is in units of 10^-15 of the unit; convert to nanoseconds. The
+        // product does not fit into 64 bits so use a wider type for the intermediate value.
+        let fraction_seconds = Duration::nanoseconds(
+            (hours.femptos as u128 * SECOND_PER_HOUR as u128 / FEMPTOS_PER_NANOSECOND) as i64,
         );
 
         Self {
@@ -77,9 +80,10 @@ impl DurationLiteral {
         // The whole part is entirely seconds
         let whole_seconds = Duration::minutes(minutes.whole as i64);
 
-        // The fraction has both seconds and one part femptoseconds
-        let fraction_seconds = Duration::microseconds(
-            (minutes.femptos * SECOND_PER_MINUTE / FixedPoint::FRACTIONAL_UNITS) as i64,
+        // The fraction is in units of 10^-15 of the unit; convert to nanoseconds. The
+        // product does not fit into 64 bits so use a wider type for the intermediate value.
+        let fraction_seconds = Duration::nanoseconds(
+            (minutes.femptos as u128 * SECOND_PER_MINUTE as u128 / FEMPTOS_PER_NANOSECOND) as i64,
         );
         Self {
             span: minutes.span,
